@@ -475,7 +475,21 @@ void LogsumHmmLikelihood::computeDForward_() const
 
 double LogsumHmmLikelihood::getDLogLikelihoodForASite(size_t site) const
 {
-  return partialDLogLikelihoods_[site];
+  // Derivative of log Pr(x_site | previous positions of the segment of site), as in RescaledHmmLikelihood:
+  // the derivative of the log-likelihood of the segment up to site, minus the one up to site - 1.
+  auto dLogPrefix = [this](size_t i)
+      {
+        vector<double> num(nbStates_);
+        for (size_t kp = 0; kp < nbStates_; kp++)
+        {
+          num[kp] = logLikelihood_[i * nbStates_ + kp];
+        }
+        num -= VectorTools::max(num);
+        return VectorTools::sumExp(num, dLogLikelihood_[i]) / VectorTools::sumExp(num);
+      };
+
+  bool firstOfSegment = (site == 0) || (find(breakPoints_.begin(), breakPoints_.end(), site) != breakPoints_.end());
+  return firstOfSegment ? dLogPrefix(site) : dLogPrefix(site) - dLogPrefix(site - 1);
 }
 
 /***************************************************************************************************************************/
@@ -599,5 +613,20 @@ void LogsumHmmLikelihood::computeD2Forward_() const
 
 double LogsumHmmLikelihood::getD2LogLikelihoodForASite(size_t site) const
 {
-  return partialD2LogLikelihoods_[site];
+  // Second derivative of log Pr(x_site | previous positions of the segment of site), same differences.
+  auto d2LogPrefix = [this](size_t i)
+      {
+        vector<double> num(nbStates_);
+        for (size_t kp = 0; kp < nbStates_; kp++)
+        {
+          num[kp] = logLikelihood_[i * nbStates_ + kp];
+        }
+        num -= VectorTools::max(num);
+        double den = VectorTools::sumExp(num);
+        vector<double> num2 = dLogLikelihood_[i] * dLogLikelihood_[i] + d2LogLikelihood_[i];
+        return VectorTools::sumExp(num, num2) / den - pow(VectorTools::sumExp(num, dLogLikelihood_[i]) / den, 2);
+      };
+
+  bool firstOfSegment = (site == 0) || (find(breakPoints_.begin(), breakPoints_.end(), site) != breakPoints_.end());
+  return firstOfSegment ? d2LogPrefix(site) : d2LogPrefix(site) - d2LogPrefix(site - 1);
 }
